@@ -189,6 +189,13 @@ pub fn build_world_with_gap(coin: &'static refmodel::coins::Coin, chain: &[Block
         w.extra.push(Extra::Symlink("blk00778.dat".into(), "blk00555.dat".into()));
         w.extra.push(Extra::Symlink("blk00779.dat".into(), ".".into()));
         w.extra.push(Extra::Symlink("blk00780.dat".into(), "blk00780.dat".into()));
+        // a stale copy of the directory nested into itself (`blocks/` with an index and blk files of its own, ending one block
+        // earlier and stored differently), and the same under the names a node's data directory would use
+        if chain.len() >= 2 {
+            let stale = World::simple(coin, &chain[..chain.len() - 1], first_height);
+            w.extra.push(Extra::Nested("blocks".into(), Box::new(stale.clone())));
+            w.extra.push(Extra::Nested("testnet3/blocks".into(), Box::new(stale)));
+        }
         // names that contain a real blk file's name: the prefix or the extension written twice (what a careless copy or
         // rename script leaves behind), for every file number the index names
         for (fno, name, _) in &l.files {
